@@ -206,8 +206,8 @@ pub fn emit_rust(built: &[Built], seed: u64, tier: &str, want: &dyn Fn(&str) -> 
     let mut c02: Vec<usize> = vec![];
     let mut c16: Vec<usize> = vec![];
     let mut c10: Vec<usize> = vec![];
-    let always_c02 = ["months", "only_empty_key_map", "empty", "uncommon_bytes", "fan33_deep"];
-    let thorough_c02 = ["months_set", "chain", "boundary", "fan31_map", "fan32_map", "fan33_map", "fan34_set", "fan255_map",
+    let always_c02 = ["months", "only_empty_key_map", "empty", "uncommon_bytes", "fan33_set"];
+    let thorough_c02 = ["fan33_deep", "months_set", "chain", "boundary", "fan31_map", "fan32_map", "fan33_map", "fan34_set", "fan255_map",
                         "fan256_map", "fan256_deep", "fan32_deep", "only_empty_key_set", "mono_deep"];
     for n in always_c02.iter() { if let Some(i) = by_name(n) { c02.push(i); } }
     c02.extend(pick(built, "ab", if thorough { 24 } else { 3 }, &mut rng, &|b| b.art.kvs.len() >= 3));
@@ -221,9 +221,9 @@ pub fn emit_rust(built: &[Built], seed: u64, tier: &str, want: &dyn Fn(&str) -> 
         c16.extend(pick(built, "abmono", 1, &mut rng, &|b| b.monotone && b.art.kvs.len() >= 3 && b.art.kvs.len() <= 4));
     }
     // the 35-byte v2 file {"a"} = abset_002 (mask bit 1 = "a")
-    for n in ["abset_002", "months", "fan33_deep", "only_empty_key_map", "empty"].iter() { if let Some(i) = by_name(n) { c10.push(i); } }
+    for n in ["abset_002", "months", "fan33_set", "only_empty_key_set", "only_empty_key_map", "empty"].iter() { if let Some(i) = by_name(n) { c10.push(i); } }
     c10.extend(pick(built, "ab", if thorough { 12 } else { 2 }, &mut rng, &|b| b.art.kvs.len() >= 2));
-    if thorough { for n in ["fan256_map", "fan34_set", "uncommon_bytes", "chain"].iter() { if let Some(i) = by_name(n) { c10.push(i); } } }
+    if thorough { for n in ["fan33_deep", "fan256_map", "fan34_set", "uncommon_bytes", "chain"].iter() { if let Some(i) = by_name(n) { c10.push(i); } } }
     c02.dedup(); c16.dedup(); c10.dedup();
 
     let mut emitted_static: Vec<String> = vec![];
@@ -288,8 +288,10 @@ pub fn emit_rust(built: &[Built], seed: u64, tier: &str, want: &dyn Fn(&str) -> 
         Err(e) => {{ core::mem::forget(e); assert!(false, \"built FST does not open\"); }}
     }}", sn = sname, nk = b.art.kvs.len(), cs = cover_some, cn = cover_none),
                 };
-                let _ = writeln!(s, "#[kani::proof]\n#[kani::unwind({})]\nfn {}() {{\n    let p: [u8; {}] = kani::any();\n    let want = model_{}_l{}(&p);\n{}\n}}\n",
-                                 unwind, hname, l, name, l, body);
+                // the empty probe is a zero-length slice of a real object (a slice of a zero-sized array has a dangling pointer the model checker cannot compare)
+                let pdecl = if l == 0 { format!("let backing = [0u8; 1];\n    let p: &[u8] = &backing[..0];\n    let want = model_{}_l0(&[]);", name) } else { format!("let p: [u8; {}] = kani::any();\n    let want = model_{}_l{}(&p);", l, name, l) };
+                let _ = writeln!(s, "#[kani::proof]\n#[kani::unwind({})]\nfn {}() {{\n    {}\n{}\n}}\n",
+                                 unwind, hname, pdecl, body);
                 harness_entry(index, "C02", &hname, name, unwind,
                               &format!("{} API on the current builder's bytes for {} ({} keys, {} bytes): every probe of length {}", api, name, b.art.kvs.len(), b.bytes.len(), l),
                               "[]", if b.bytes.len() > 400 { "heavy" } else { "light" });
@@ -369,8 +371,7 @@ fn {h}() {{
 "#[kani::proof]
 #[kani::unwind({uw})]
 fn {h}() {{
-    let p: [u8; {l}] = kani::any();
-    let want = model_{n}_l{l}(&p);
+    {pdecl}
     match {open} {{
         Ok(f) => {{
             let got = f.get(&p[..]).map(|o| o.value());
@@ -387,7 +388,8 @@ fn {h}() {{
         Err(e) => {{ core::mem::forget(e); assert!(false, \"well-formed legacy file does not open\"); }}
     }}
 }}
-", uw = unwind, h = hname, l = l, n = name, open = open, nk = b.art.kvs.len());
+", uw = unwind, h = hname, open = open, nk = b.art.kvs.len(),
+   pdecl = if l == 0 { format!("let backing = [0u8; 1];\n    let p: &[u8] = &backing[..0];\n    let want = model_{}_l0(&[]);", name) } else { format!("let p: [u8; {}] = kani::any();\n    let want = model_{}_l{}(&p);", l, name, l) });
                     harness_entry(index, "C10", &hname, name, unwind,
                                   &format!("version-{} file ({} bytes, reference-encoded) of {} in a {}: opens, every probe of length {}, verify()=ChecksumMissing", ver, bytes.len(), name, container, l),
                                   "[]", if bytes.len() > 400 { "heavy" } else { "light" });
